@@ -113,6 +113,7 @@ func runCheck(c *Checker, f func(*Checker), dir string) (code int) {
 		c.W = w
 		c.sums = nil
 		c.sums = map[*ssa.Function]*Summary{}
+		c.pm = nil
 		f(c)
 		if shapeProps[c.Prop] {
 			checkI0(c, c.Prop+"-I0")
